@@ -164,6 +164,7 @@ type context struct {
 	skips       map[string]none
 	loaded      map[*types.Package]*pkgInfo // loaded packages
 	bvals       map[ssa.Value]llssa.Expr    // block values
+	arrSnaps    map[*ssa.UnOp]llssa.Expr    // loaded array values kept in a frame slot for indexing
 	vargs       map[*ssa.Alloc][]llssa.Expr // varargs
 	funcs       map[*ssa.Function]llssa.Function
 	stackDefers map[*ssa.Function]bool
@@ -448,6 +449,7 @@ func (p *context) compileFuncDecl(pkg llssa.Package, f *ssa.Function) (llssa.Fun
 				b.DebugFunction(fn, pos, bodyPos)
 			}
 			p.bvals = make(map[ssa.Value]llssa.Expr)
+			p.arrSnaps = make(map[*ssa.UnOp]llssa.Expr)
 			off := make([]int, len(f.Blocks))
 			if isCgo {
 				p.cgoArgs = make([]llssa.Expr, len(f.Params))
@@ -677,6 +679,54 @@ func intVal(v ssa.Value) int64 {
 	panic("intVal: ssa.Value is not a const int")
 }
 
+// arrayValueIndexedLater reports whether v loads an array value that is indexed
+// (t[i] on the value, not through the address) at a point where the memory it
+// was loaded from may have changed: in another block, or in the same block
+// after an instruction that can write memory.
+func arrayValueIndexedLater(v *ssa.UnOp) bool {
+	if v.Op != token.MUL {
+		return false
+	}
+	if _, ok := v.Type().Underlying().(*types.Array); !ok {
+		return false
+	}
+	refs := v.Referrers()
+	if refs == nil {
+		return false
+	}
+	for _, ref := range *refs {
+		idx, ok := ref.(*ssa.Index)
+		if !ok || idx.X != v {
+			continue
+		}
+		if idx.Block() != v.Block() {
+			return true
+		}
+		between := false
+		for _, instr := range v.Block().Instrs {
+			if instr == ssa.Instruction(v) {
+				between = true
+				continue
+			}
+			if instr == ssa.Instruction(idx) {
+				break
+			}
+			if !between {
+				continue
+			}
+			switch instr.(type) {
+			case *ssa.Store, *ssa.Call, *ssa.Defer, *ssa.Go, *ssa.MapUpdate, *ssa.Send, *ssa.Select, *ssa.RunDefers, *ssa.Panic:
+				return true
+			case *ssa.UnOp:
+				if instr.(*ssa.UnOp).Op == token.ARROW {
+					return true
+				}
+			}
+		}
+	}
+	return false
+}
+
 func skipUnusedArrayDeref(v *ssa.UnOp) bool {
 	if v.Op != token.MUL {
 		return false
@@ -888,6 +938,14 @@ func (p *context) compileInstrOrValue(b llssa.Builder, iv instrOrValue, asValue 
 			ret = b.Recv(x, v.CommaOk)
 		} else {
 			ret = b.UnOp(v.Op, x)
+			if arrayValueIndexedLater(v) {
+				// t = *p; ...; t[i]: the elements are read from a copy taken now,
+				// the memory at p may change before the index expression runs
+				// (for i, v := range arr { arr[j] = x }).
+				slot := b.AllocaEntry(p.type_(v.Type(), llssa.InGo))
+				b.Store(slot, ret)
+				p.arrSnaps[v] = slot
+			}
 		}
 	case *ssa.ChangeType:
 		t := v.Type()
@@ -925,7 +983,9 @@ func (p *context) compileInstrOrValue(b llssa.Builder, iv instrOrValue, asValue 
 			case *ssa.UnOp:
 				// only a load has an address to index from; the operand of a
 				// receive (<-ch)[i] is the channel
-				if n.Op == token.MUL {
+				if snap, ok := p.arrSnaps[n]; ok {
+					addr = snap
+				} else if n.Op == token.MUL {
 					addr = p.compileValue(b, n.X)
 				}
 			}
